@@ -100,7 +100,7 @@ func runC12(c *Ctx) {
 		if !ok || len(ret.Results) == 0 {
 			return ok
 		}
-		last := ret.Results[len(ret.Results)-1]
+		last := unspill(ret, len(ret.Results)-1)
 		if last.Type().String() != "error" {
 			return true
 		}
